@@ -50,6 +50,10 @@ func (p *Profile) props(m Mismatch) map[string]bool {
 			if pf.K == 1 || pf.K == 2 {
 				out["C12"] = true
 			}
+			if b, _ := r["fromcsd"].(bool); b && mn == 20 && pf.N == 6 {
+				out["C18"] = true // speed derived from compressed_speed_distance in this record
+				delete(out, "C02")
+			}
 			if componentDest[[2]int{mn, pf.N}] {
 				out["C18"] = true
 				// a destination that was not on the wire is not a C02 matter
